@@ -308,6 +308,7 @@ class Case:
         self.tables = None
         self.pre = None          # a path parsed right before the case (ambient history), bytes
         self.alias = False       # build equal sub-containers as one shared Go object
+        self.pad = None          # with keyc: (n1, n2) blanks before / after: the text is Coq padded_path
         self.nodollar = False    # with keyc: the text is Coq chain_path0 (leading $ omitted)
         self.keyc = None         # [(quote code point or 0 for the dot spelling, key code points)]: path == Coq chain_path
         self.keyq = None         # (quote code point, key code points): the driver confirms path == Coq key_path
@@ -352,6 +353,8 @@ class Case:
             parts.append('(keyc %s)' % ' '.join('(%s)' % kstep_sx(st) for st in self.keyc))
             if self.nodollar:
                 parts.append('(nodollar 1)')
+            if self.pad:
+                parts.append('(pad %d %d)' % self.pad)
         parts.append('(mode %s))' % self.mode)
         return ' '.join(parts)
 
